@@ -4,13 +4,16 @@ EXTENDS PyFlow, Json
 CONSTANTS ExportMin      \* bodies shorter than this are not exported
 
 MCKindsAll  == {"asg", "aug", "prt", "ret", "rtn", "if", "else", "for", "whl", "brk", "cnt"}
-MCKindsInline == MCKindsAll \cup {"ifa", "wha"}
+MCKindsInline == MCKindsAll \cup {"ifa", "wha", "cmp"}
+MCKindsTry == {"try", "exc", "asg", "prt", "if"}
+MCReadsA == {{}, {"a"}}
 MCKindsLoop == {"for", "whl", "else", "brk", "cnt", "prt"}
 MCReadsAll == SUBSET Vars
 MCReadsNone == {{}}
 MCForAll == Vars \cup {""}
 MCForPlain == {""}
 MCKindsCore == {"asg", "aug", "prt", "if", "else", "for"}
+MCInitNoneA == {{}, {"a"}}
 MCInitAll   == {{}, {"a"}, {"a", "b"}}
 MCInitOne   == {{"a"}}
 MCInitBoth  == {{"a", "b"}}
